@@ -31,7 +31,7 @@ FUNCS = {
     "numpy.nanmax": "nanmax", "numpy.nancumsum": "nancumsum", "numpy.unique": "unique",
     "numpy.ma.filled": "mafilled", "int": "int", "min": "pymin", "max": "pymax",
     "numpy.arccos": "arccos", "numpy.cos": "cos", "numpy.sin": "sin",
-    "verif.util.nanmean": "unanmean", "verif.util.numvalid": "numvalid", "verif.util.nprange": "nprange",
+    "verif.util.nanmean": "unanmean",
     "scipy.stats.spearmanr": "spearmanr", "scipy.stats.kendalltau": "kendalltau",
 }
 
@@ -442,6 +442,9 @@ class Evaluator(object):
         if isinstance(st, ast.AugAssign):
             fake = ast.BinOp(left=_as_load(st.target), op=st.op, right=st.value)
             ast.copy_location(fake, st)
+            before = self.ev(_as_load(st.target), path)
+            self._event("inplace", path, st, name=dotted(st.target) or norm(st.target), before=before,
+                        operand=self.ev(st.value, path))
             v = self.ev(fake, path)
             self.assign(st.target, v, path, st)
             return [path]
@@ -680,7 +683,7 @@ def eval_expr_string(text, module=None, env=None):
 
 REF_FUNCS = {"agg", "mean", "nanmean", "sum", "nansum", "std", "var", "sqrt", "exp", "log", "log2", "abs",
              "sort", "median", "percentile", "corr", "min", "max", "spearmanr0", "kendalltau0",
-             "within", "numvalid", "cumsum", "lt", "le", "masum"}
+             "within", "numvalid", "cumsum", "lt", "le", "masum", "isnan", "isinf", "nanmin", "nanmax", "len", "int"}
 
 
 def _ref_call_hook(ev, node, rname, args, kwargs, path):
